@@ -472,7 +472,7 @@ Definition win_ok_b (cs keys : list string) (ke : string * expr) : bool :=
   match win_shape (snd ke) with
   | Some (fn, Some (WCol c), _) => mem c cs && (negb (mem c keys) || String.eqb c (fst ke)) && negb (String.eqb fn "any_value")
   | Some (fn, Some (WConst _), _) => false       (* a literal first argument (stand-in column): transcribed and tied, not covered by the refinement proof *)
-  | Some (fn, None, _) => true
+  | Some (fn, None, _) => mem fn ["_row_number"; "_count"; "_size"]      (* _ngroup: group numbering, not modelled *)
   | None => false
   end.
 Definition join_keys_clean (ca cb on_a on_b : list string) : bool :=
@@ -485,7 +485,7 @@ Fixpoint wf_op_b (p : op) : bool :=
   | OExtend s ops wd w =>
       wf_op_b s && nodup_names (map fst ops) && negb (Nat.eqb (List.length ops) 0) &&
       (if wd || Nat.ltb 0 (List.length (w_part w)) || Nat.ltb 0 (List.length (w_order w))
-       then disjointb (map fst ops) (w_part w ++ w_order w) && subset (w_part w ++ w_order w) (column_names s)
+       then wd && disjointb (map fst ops) (w_part w ++ w_order w) && subset (w_part w ++ w_order w) (column_names s)
             && nodup_names (w_part w ++ w_order w)
             && forallb (win_ok_b (column_names s) (map fst ops)) ops
        else true)
